@@ -613,59 +613,56 @@ func Run(out *verifutil.Out, inputs []Input, cfg Config) Summary {
 				doneIDs = append(doneIDs, id)
 			}
 		}
-		absorb(cr, doneIDs)
 		if d == nil && len(doneIDs) == n {
+			absorb(cr, doneIDs)
 			pending = pending[n:]
-			continue
-		}
-		// the child died: the first started-but-not-ended input is the suspect
-		culprit := -1
-		for _, id := range cr.started {
-			if !cr.ended[id] {
-				culprit = id
-				break
-			}
-		}
-		if culprit < 0 {
-			// died outside of any input (start-up or shutdown): a harness problem, never silent
-			if d == nil {
-				d = &died{how: "exit"}
-			}
-			out.Fail("crash:child-outside-input", "child died outside of any input: "+firstLines(d.stderr, 20))
-			if len(doneIDs) == 0 {
-				pending = pending[n:] // avoid looping forever
-			} else {
-				pending = pending[len(doneIDs):]
-			}
 			continue
 		}
 		if d == nil {
 			d = &died{how: "exit"}
 		}
-		in := byID(culprit)
-		if d.how == "exit" {
-			// The S/E markers pin the culprit and the child's stderr names the site: no re-run needed.
-			reportDeath(in, cr, d, true)
-			k := 0
-			for i, id := range ids {
-				if id == culprit {
-					k = i
+		// The child died.  The input that was started but not ended is the first suspect.  A panic
+		// in a goroutine the input started (errgroup worker) races with the main goroutine, which
+		// may be released by the worker's deferred Done and finish the input (even start the
+		// next one) before the runtime kills the process: the input that ended last is a suspect
+		// too.  Each suspect is run again alone; what it does alone is what is recorded.
+		culprit, k := -1, -1
+		for i, id := range ids {
+			if !cr.ended[id] {
+				for _, st := range cr.started {
+					if st == id {
+						culprit, k = id, i
+					}
 				}
+				break
 			}
-			pending = pending[k+1:]
-			continue
 		}
-		// no progress for StallS seconds: run the suspect alone with twice the time (the machine
-		// may just have been busy)
-		cr2, d2 := runChild(cfg, []Input{*in}, 2*time.Duration(cfg.StallS)*time.Second, skipList())
-		if d2 != nil {
+		var suspects []int
+		clean := doneIDs
+		if d.how == "exit" && len(doneIDs) > 0 {
+			suspects = append(suspects, doneIDs[len(doneIDs)-1])
+			clean = doneIDs[:len(doneIDs)-1]
+		}
+		if culprit >= 0 {
+			suspects = append(suspects, culprit)
+		}
+		absorb(cr, clean)
+		anyDied := false
+		for _, sid := range suspects {
+			in := byID(sid)
+			cr2, d2 := runChild(cfg, []Input{*in}, 2*time.Duration(cfg.StallS)*time.Second, skipList())
+			if d2 == nil {
+				absorb(cr2, []int{sid})
+				continue
+			}
+			anyDied = true
 			reportDeath(in, cr2, d2, true)
 			if d2.how == "timeout" {
 				// A hang costs StallS*3 seconds.  The same target is not run again on inputs of
 				// the same class, and after MaxHangs hangs not at all (the gates open/mem/db are
 				// never switched off as a whole).  What was skipped is counted in the statistics;
 				// every hang that was seen is a reported violation.
-				t := cr2.lastTgt[culprit]
+				t := cr2.lastTgt[sid]
 				hangs[t]++
 				skipped[t+"|"+in.Class] = true
 				out.Count("skipped-after-hang:" + t + "|" + in.Class)
@@ -674,20 +671,24 @@ func Run(out *verifutil.Out, inputs []Input, cfg Config) Summary {
 					out.Count("skipped-after-hangs:" + t)
 				}
 			}
-		} else if d.how == "timeout" && cr2.ended[culprit] {
-			// slow in the batch but fine alone: not a hang; take the result
-			absorb(cr2, []int{culprit})
-		} else {
-			reportDeath(in, cr, d, false)
 		}
-		// continue after the culprit
-		k := 0
-		for i, id := range ids {
-			if id == culprit {
-				k = i
+		if !anyDied && d.how == "exit" {
+			// died in the batch, nobody dies alone: still a crash, attributed to the batch position
+			if culprit >= 0 {
+				reportDeath(byID(culprit), cr, d, false)
+			} else {
+				out.Fail("crash:child-outside-input", "child died outside of any input: "+firstLines(d.stderr, 20))
 			}
 		}
-		pending = pending[k+1:]
+		switch {
+		case culprit >= 0:
+			pending = pending[k+1:]
+		case len(doneIDs) > 0:
+			pending = pending[len(doneIDs):]
+		default:
+			pending = pending[n:] // died before the first input: do not loop forever
+			out.Fail("crash:child-outside-input", "child died before the first input: "+firstLines(d.stderr, 20))
+		}
 	}
 	return sum
 }
